@@ -9,6 +9,7 @@ from __future__ import annotations
 import ast
 import copy
 import os
+import sys
 
 import z3
 
@@ -254,11 +255,27 @@ class Interp:
                                            text='reads only parameters and locals (no globals / RNG / clock / files / module-level '
                                                 'mutable state / uncontracted callees); found: ' + repr(sorted(set(bad)))))
 
+    def entry_scalars(self, st):
+        """Post-conditions speak about the caller's arguments: a scalar parameter (int / real / bool / str - immutable, so only a
+        re-assignment inside the body can change what its name denotes) stands for its ENTRY value in `ensures` / `raises_ensures`,
+        as in JML / ACSL.  Without this a body that re-assigns a parameter (`value = value[:64]`) would have its post-condition
+        checked about the re-assigned value and verify vacuously."""
+        for a in self.fn.node.args.args + self.fn.node.args.kwonlyargs:
+            o = (st.old or {}).get(a.arg)
+            c = st.env.get(a.arg)
+            if isinstance(o, (VInt, VReal, VBool, VStr)) and c is not None and c is not o:
+                same = type(c) is type(o) and getattr(c, 't', None) is not None and z3.eq(c.t, o.t) if hasattr(o, 't') else False
+                if not same:
+                    if os.environ.get('PYVC_TRACE_ENTRY'):
+                        print(f'ENTRY-REBIND {self.cur["key"]}: {a.arg}', file=sys.stderr)
+                    st.env[a.arg] = o
+
     def check_ensures(self, st, res, contract):
         res = self.coerce_result(res, contract.get('returns'))
         st.env['result'] = res
         for gname, local in (contract.get('ghost_bind') or {}).items():
-            st.env[gname] = self.spec(st, local, raw=True)
+            st.env[gname] = self.spec(st, local, raw=True)       # ghosts bound to locals see the exit state
+        self.entry_scalars(st)
         for gname, ks in (contract.get('ghost_out') or {}).items():
             if gname not in st.env:
                 # ghost output not produced on this path: arbitrary
@@ -285,6 +302,7 @@ class Interp:
         return res
 
     def check_raise_ensures(self, st, exc, contract):
+        self.entry_scalars(st)
         for label, expr in (contract.get('raises_ensures') or {}).get(exc, []):
             self.oblige(st, f'raises[{exc}].{label}', self.spec(st, expr), text=expr)
 
